@@ -305,4 +305,8 @@ class Parser(object):
         # type: (str) -> ProgramNode
         """ Parses the source text into a program structure """
 
+        # The lexer and the EEMS 2.0 flag are kept between calls: start every parse from a clean state
+        self.lexer.lineno = 1
+        self.eems_v2 = False
+
         return self.parser.parse(source, lexer=self.lexer, tracking=True)
